@@ -383,6 +383,79 @@ template <typename T> static void c20_family(rng& g, bool thorough)
     }
 }
 
+// ---- structure of the multi channel summary (growth; spec/Summary.tla)
+template <typename T> static void summary_case(std::vector<long long> const& w, long long S, long long N)
+{
+    std::size_t n = w.size();
+    std::vector<T> weights, adj(n, T(1));
+    for (long long x : w) weights.push_back(T(x) / T(S));
+    hep::plain_result<T> pr(std::vector<hep::distribution_result<T>>(), (std::size_t) N, (std::size_t) N, (std::size_t) N, T(1), T(1));
+    auto chk = hep::make_multi_channel_chkpt<T>();
+    chk.add(hep::multi_channel_result<T>(pr, adj, weights), std::mt19937());
+    std::ostringstream o;
+    std::string status = "ok";
+    try { hep::multi_channel_summary(chk, o); } catch (std::exception const&) { status = "threw"; }
+    std::istringstream in(o.str());
+    std::string line;
+    long long channels = -1, min_count = -1, wmax = -1;
+    std::vector<long long> printed, runs;
+    while (std::getline(in, line))
+    {
+        auto chan_of = [&](std::string const& l) { std::size_t p = l.rfind('#'); return p == std::string::npos ? -2LL : std::atoll(l.c_str() + p + 1); };
+        if (line.compare(0, 7, "summary") == 0) { std::size_t p = line.find(" for "); channels = std::atoll(line.c_str() + p + 5); }
+        else if (line.compare(0, 5, "wmin=") == 0)
+        {
+            std::size_t p = line.find(") in ");
+            min_count = std::atoll(line.c_str() + p + 5);
+            std::size_t h = line.find('#');
+            std::string rs = line.substr(h + 1);
+            std::size_t i = 0;
+            while (i < rs.size())
+            {
+                long long a = std::atoll(rs.c_str() + i), b = a;
+                while (i < rs.size() && rs[i] != '-' && rs[i] != ',') ++i;
+                if (i < rs.size() && rs[i] == '-') { ++i; b = std::atoll(rs.c_str() + i); while (i < rs.size() && rs[i] != ',') ++i; }
+                if (i < rs.size()) ++i;
+                runs.push_back(a); runs.push_back(b);
+            }
+        }
+        else if (line.compare(0, 5, "   w=") == 0) printed.push_back(chan_of(line));
+        else if (line.compare(0, 8, "     ...") == 0) printed.push_back(-1);
+        else if (line.compare(0, 5, "wmax=") == 0) wmax = chan_of(line);
+    }
+    ev("Summary").s("T", type_name<T>::get()).a("w", w).i("S", S).i("N", N).s("status", status).i("channels", channels).i("minCount", min_count)
+        .a("minRuns", runs).a("printed", printed).i("wmax", wmax).emit();
+}
+template <typename T> static void summary_family(rng& g, bool thorough)
+{
+    static int const sizes[10] = {1, 2, 3, 5, 11, 12, 13, 14, 20, 40};
+    for (int k = 0; k != (thorough ? 600 : 150); ++k)
+    {
+        int n = sizes[g.below(10)];
+        long long S = 256;
+        std::vector<long long> w((std::size_t) n, 0);
+        int pat = (int) g.below(6);
+        long long left = S;
+        for (int i = 0; i != n && left > 0; ++i)
+        {
+            long long x;
+            if (pat == 0) x = S / n;                                   // all (nearly) equal
+            else if (pat == 1) x = i == n / 2 ? S / 2 : 1;             // all but one minimal
+            else if (pat == 2) x = g.below(4) == 0 ? 1 + (long long) g.below(40) : 0;   // few non-minimal, rest disabled
+            else if (pat == 3) x = 1 + i;                              // graded
+            else if (pat == 4) x = i < n / 2 ? 0 : 1 + (i % 3);        // disabled in front
+            else x = (long long) g.below(12);
+            if (x > left) x = left;
+            w[(std::size_t) i] = x;
+            left -= x;
+        }
+        w[(std::size_t) g.below((unsigned) n)] += left;               // make the weights sum to S exactly
+        long long N = 256 * (1 + (long long) g.below(8));
+        if (g.below(5) == 0) N = 64;                                   // few calls: many channels share the minimal count
+        summary_case<T>(w, S, N);
+    }
+}
+
 int main(int argc, char** argv)
 {
     if (argc < 6) return 2;
@@ -402,6 +475,8 @@ int main(int argc, char** argv)
     }
     else
     {
+        summary_family<double>(g, thorough);
+        summary_family<float>(g, thorough);
         c20_family<double>(g, thorough);
         if (thorough) { c20_family<float>(g, true); c20_family<long double>(g, true); }
         else c20_run<mc_k<float>, float>(g, s_ordinary, 18, 0, 0.0), c20_run<plain_k<long double>, long double>(g, s_ordinary, 0, 2, 0.01);
